@@ -21,14 +21,28 @@ pub struct Analysed {
 }
 
 pub fn analyse(dic: &sudachi::dic::dictionary::JapaneseDictionary, text: &str, mode: sudachi::analysis::Mode) -> Result<Result<Analysed, String>, String> {
+    analyse_after(dic, &[], text, mode)
+}
+
+/// the analysis of `text` on a tokenizer and a result list that were USED before, the way a long-lived analyser is
+/// (reset / fill / do_tokenize / collect_results for every earlier text; the tokenizer and the list swap their input
+/// buffers on every call, so the text meets a buffer that held the text analysed two calls earlier); failures of the
+/// warm-up calls are ignored, they are part of the history
+pub fn analyse_after(dic: &sudachi::dic::dictionary::JapaneseDictionary, warm: &[String], text: &str, mode: sudachi::analysis::Mode) -> Result<Result<Analysed, String>, String> {
     catch(|| {
         let mut tok = StatefulTokenizer::new(dic, mode);
+        let mut ml = MorphemeList::empty(dic);
+        for wt in warm {
+            tok.reset().push_str(wt);
+            if tok.do_tokenize().is_ok() {
+                let _ = ml.collect_results(&mut tok);
+            }
+        }
         tok.reset().push_str(text);
         if let Err(e) = tok.do_tokenize() {
             return Err(err_class(&e));
         }
         let tables = tok.verif_input().verif_tables();
-        let mut ml = MorphemeList::empty(dic);
         if let Err(e) = ml.collect_results(&mut tok) {
             return Err(err_class(&e));
         }
@@ -77,7 +91,7 @@ pub fn partition_oracle(text: &str, a: &Analysed) -> Option<(String, String)> {
 pub fn run(run: &mut Run) {
     run.rule = "random worlds (lexicon with prefix families/homographs/splits, random matrix, random input-text, OOV and \
 path-rewrite plugin stacks, 0-2 user dictionaries) x random texts over word characters and normalisation/OOV-relevant \
-characters x modes A/B/C; non-trivial = accepted, at least 2 morphemes and the normalised text differs from the input or a \
+characters x modes A/B/C x history (a new tokenizer, or one that analysed 1-4 other texts of other lengths before); non-trivial = accepted, at least 2 morphemes and the normalised text differs from the input or a \
 morpheme comes from a split/merge; distinct by line".into();
     let n = run.opts.count;
     let opts = WorldOpts::default();
@@ -104,7 +118,15 @@ morpheme comes from a split/merge; distinct by line".into();
         };
         let mode = mode_of(rng.below(3));
         for d in &w.desc { run.bump(d); }
-        match analyse(&w.dic, &text, mode) {
+        // two cases in three run on a tokenizer + result list with a history of 1..4 earlier texts of other lengths
+        let mut warm: Vec<String> = vec![];
+        if idx % 3 != 0 {
+            for _ in 0..1 + rng.below(4) {
+                warm.push(match rng.below(4) { 0 => "ＡＢＣ１２３".to_string(), 1 => gen_text(&mut rng, w, 30), 2 => gen_text(&mut rng, w, 4), _ => gen_text(&mut rng, w, 14) });
+            }
+        }
+        run.bump(&format!("history:{}-earlier-texts", warm.len()));
+        match analyse_after(&w.dic, &warm, &text, mode) {
             Err(p) => {
                 run.bump("outcome:panic");
                 run.bump(&format!("panic:{}", p.chars().take(60).collect::<String>()));
@@ -128,7 +150,7 @@ morpheme comes from a split/merge; distinct by line".into();
                 );
                 run.case(idx, "morph", &payload, &ans, a.morphs.len() >= 2 && changed);
                 if let Some((k, what)) = partition_oracle(&text, &a) {
-                    run.fail(idx, &format!("c01:{}", k), &format!("{} | text={:?} mode={:?} world={}", what, text, mode, w.desc.join(" ")));
+                    run.fail(idx, &format!("c01:{}", k), &format!("{} | text={:?} mode={:?} earlier texts on the same tokenizer={:?} world={}", what, text, mode, warm, w.desc.join(" ")));
                 }
             }
         }
